@@ -1751,10 +1751,13 @@ class EAStorySwap(ElementAction):
             raise MosMergeError(
                 f"{self.__class__.__name__} error in {self.message_id} - story 2 not found"
             )
-        remove_node(parent=ro.base_tag, node=story1)
-        remove_node(parent=ro.base_tag, node=story2)
-        insert_node(parent=ro.base_tag, node=story2, index=story1_index)
-        insert_node(parent=ro.base_tag, node=story1, index=story2_index)
+        if story1 is story2:
+            raise MosMergeError(
+                f"{self.__class__.__name__} error in {self.message_id} - cannot swap a story with itself"
+            )
+        # exchange the two stories in place: every other child keeps its index
+        ro.base_tag[story1_index] = story2
+        ro.base_tag[story2_index] = story1
         return ro
 
     def inspect(self):
@@ -1824,10 +1827,13 @@ class EAItemSwap(ElementAction):
             raise MosMergeError(
                 f"{self.__class__.__name__} error in {self.message_id} - item 2 not found"
             )
-        remove_node(parent=story, node=item1)
-        remove_node(parent=story, node=item2)
-        insert_node(parent=story, node=item2, index=item1_index)
-        insert_node(parent=story, node=item1, index=item2_index)
+        if item1 is item2:
+            raise MosMergeError(
+                f"{self.__class__.__name__} error in {self.message_id} - cannot swap an item with itself"
+            )
+        # exchange the two items in place: every other child keeps its index
+        story[item1_index] = item2
+        story[item2_index] = item1
         return ro
 
     def inspect(self):
